@@ -110,6 +110,7 @@ func (muxer *Muxer) process() {
 	var packSequenceHeader bool
 
 	for !muxer.closed {
+		verifPoint("flvmux.before-pop", muxer)
 		f := muxer.recvQueue.Pop()
 		if f == nil {
 			if !muxer.closed {
